@@ -10,7 +10,7 @@ structure CioSt where
   s : CIO := {}
   nreg : Nat := 0
 
-def parseCmd (t : String) : Option Cmd :=
+def parseCioCmd (t : String) : Option Cmd :=
   match splitChar '/' t with
   | [c, q, d] => do
     let c ← c.toNat?
@@ -19,36 +19,36 @@ def parseCmd (t : String) : Option Cmd :=
     if c < 2 ^ 32 ∧ q < 2 ^ 64 then pure ⟨c, q, String.ofList (b.map Char.ofNat)⟩ else none
   | _ => none
 
-def parseBatch (t : String) : Option (List Cmd) :=
-  if t == "-" then some [] else (splitChar ',' t).mapM parseCmd
+def parseCioBatch (t : String) : Option (List Cmd) :=
+  if t == "-" then some [] else (splitChar ',' t).mapM parseCioCmd
 
-def outcomeName : Outcome → String
+def cioOutcomeName : Outcome → String
   | .ok => "ok" | .alreadyExecuted => "dup" | .forked => "forked"
 
-def sortNat {α} (key : α → Nat) (l : List α) : List α :=
+def cioSortNat {α} (key : α → Nat) (l : List α) : List α :=
   l.foldl (fun acc x => let (a, b) := acc.span (fun y => key y ≤ key x); a ++ [x] ++ b) []
 
 def cioDigest (s : CIO) : String :=
   Sha256.hex (s.executed.flatMap fun c => c.data.toList.map fun ch => UInt8.ofNat ch.toNat)
 
 def cioReport (old new : CIO) : String :=
-  let fresh := sortNat (·.1) (new.outcomes.drop old.outcomes.length)
-  "out=[" ++ ",".intercalate (fresh.map fun o => s!"{o.1}:{outcomeName o.2.2}") ++ "]" ++
+  let fresh := cioSortNat (·.1) (new.outcomes.drop old.outcomes.length)
+  "out=[" ++ ",".intercalate (fresh.map fun o => s!"{o.1}:{cioOutcomeName o.2.2}") ++ "]" ++
   s!" count={new.executed.length} digest={cioDigest new}"
 
 def cioStep (st : CioSt) (toks : List String) : CioSt × String :=
   match toks with
   | ["register", t] =>
-    match parseCmd t with
+    match parseCioCmd t with
     | some c => let k := st.nreg + 1
                 ({ s := st.s.step (.register c k), nreg := k }, s!"ok chan={k}")
     | none => (st, "bad-op")
   | ["exec", t] =>
-    match parseBatch t with
+    match parseCioBatch t with
     | some b => let s' := st.s.step (.exec b); ({ st with s := s' }, cioReport st.s s')
     | none => (st, "bad-op")
   | ["abort", t] =>
-    match parseBatch t with
+    match parseCioBatch t with
     | some b => let s' := st.s.step (.abort b); ({ st with s := s' }, cioReport st.s s')
     | none => (st, "bad-op")
   | _ => (st, "bad-op")
@@ -79,14 +79,14 @@ def cioOracleStep (s : CioOr) (toks : List String) : CioOr × String :=
   let (lhs, rhs) := splitArrow toks
   match lhs with
   | ["register", t] =>
-    match parseCmd t with
+    match parseCioCmd t with
     | some c => let k := s.nreg + 1
                 ({ s with nreg := k, chans := (k, (c.client, c.seq)) :: s.chans },
                  if rhs == ["ok", s!"chan={k}"] then "pass" else "fail clientio-register " ++ " ".intercalate rhs)
     | none => (s, "pass")
   | [op, t] =>
     if op != "exec" && op != "abort" then (s, "pass") else
-    match parseBatch t, rhs with
+    match parseCioBatch t, rhs with
     | some b, [o, c, d] =>
       match parseOut o, natField "count" [c], field "digest" [d] with
       | some outs, some count, some digest =>
